@@ -21,7 +21,7 @@ def dateutil_parse(timestr: "Val") -> "DT":
 
 
 # ------------------------------------------------------------------------------ helpers
-@contract("prov.model._ensure_datetime", props=["C05"])
+@contract("prov.model._ensure_datetime", props=["C05", "C01", "C02"])
 def _ensure_datetime(value: "Val") -> "Val":
     pure()
     raises(ValueError, when=is_str(value) and not uf("dt_parse_ok", "bool", as_str(value)))
@@ -29,7 +29,7 @@ def _ensure_datetime(value: "Val") -> "Val":
     ensures("others-unchanged", implies(not is_str(value), same(result, value)))
 
 
-@contract("prov.model.parse_xsd_datetime", props=["C05"])
+@contract("prov.model.parse_xsd_datetime", props=["C05", "C01", "C02"])
 def parse_xsd_datetime(value: "Val") -> "Opt[DT]":
     pure()
     raises(TypeError, when=not is_str(value))
@@ -37,7 +37,7 @@ def parse_xsd_datetime(value: "Val") -> "Opt[DT]":
     ensures("none-iff-unparseable", (result is not None) == uf("dt_parse_ok", "bool", as_str(value)))
 
 
-@contract("prov.model.parse_boolean", props=["C05"])
+@contract("prov.model.parse_boolean", props=["C05", "C01", "C02"])
 def parse_boolean(value: "str") -> "Opt[bool]":
     pure()
     ensures("false-forms", implies(value.lower() == "false" or value.lower() == "0", result is not None and not the(result)))
@@ -66,7 +66,7 @@ def ParsedAs(text: "str", dt: "QN") -> "Val":
     return box(None)
 
 
-@contract("prov.model.parse_xsd_types", props=["C05"])
+@contract("prov.model.parse_xsd_types", props=["C05", "C01", "C02", "C11"])
 def parse_xsd_types(value: "str", datatype: "QN") -> "Val":
     pure()
     raises(ValueError, when=(datatype.uri == XSD_INT.uri or datatype.uri == XSD_LONG.uri or datatype.uri == XSD_DOUBLE.uri))
@@ -95,7 +95,7 @@ def ValueNF(v: "Val") -> "bool":
     return True
 
 
-@contract("prov.model.ProvRecord._auto_literal_conversion", props=["C05"])
+@contract("prov.model.ProvRecord._auto_literal_conversion", props=["C05", "C01", "C02", "C11"])
 def _auto_literal_conversion(self: "ProvRecord", literal: "Val") -> "Val":
     requires("bundle", self._bundle is not None and NSM_Inv(self._bundle._namespaces))
     requires("record-argument-is-a-record", implies(is_ref(literal), isinst(literal, "ProvRecord")))
